@@ -529,6 +529,9 @@ def _entry_gate(ctx, crate, fn_path):
                     g = _is_depth_gate(ctx, crate, x["callee"])
                     if g:
                         gate = g
+            if gate and not any(x.get("k") == "PBind" for x in walk(st["pat"])):
+                # `let _ = self.GATE(..)?`: the guard is dropped at once, so the counter is back down before anything recurses
+                return None
             if gate:
                 # let-else (diverging else) or `?` (Try desugar match)
                 if st.get("else") is not None or any(x.get("k") == "Match" and "TryDesugar" in (x.get("src") or "") for x in walk(init)):
